@@ -1131,6 +1131,35 @@ func main() {
 		c.ls = []listReq{{"", 0}, {"name:F", 0}}
 		emit(c.encode(next()))
 	}
+	if shard == 0 && os.Getenv("VERIF_C19_BIG") != "0" {
+		// label values around and beyond 8192 bytes and keys around 255 bytes (the declared column
+		// widths, which SQLite does not enforce): indexed, compared and returned in full
+		c := &histCase{tags: []string{"longvalue"}}
+		base := strings.Repeat("c", 8186)
+		v8190, v8192 := base+"AAAA", base+"AAAAAB"
+		v8193a, v8193b := v8192+"Y", v8192+"Z" // equal up to byte 8192
+		v8200 := base + "AAAAAC" + strings.Repeat("d", 8)
+		v8300a := v8192 + strings.Repeat("t", 107) + "1"
+		v8300b := v8192 + strings.Repeat("t", 107) + "2"
+		kb := strings.Repeat("k", 253)
+		k254, k255, k256a, k256b, k257 := kb+"a", kb+"ab", kb+"abc", kb+"abd", kb+"abcd"
+		file := func(cmd, key, kv string) string {
+			return "cmdline: " + cmd + "\n" + key + ": " + kv + "\nBenchmarkF 1 1 ns/op\nBenchmarkF 1 2 ns/op\n"
+		}
+		c.ups = []uploadIn{
+			{day: "20260101", files: []fileIn{{"a.txt", file(v8190, k254, "1")}}},
+			{day: "20260101", files: []fileIn{{"b.txt", file(v8192, k255, "1")}}},
+			{day: "20260101", files: []fileIn{{"c.txt", file(v8193a, k256a, "1")}}},
+			{day: "20260101", files: []fileIn{{"d.txt", file(v8193b, k256b, "1")}}},
+			{day: "20260101", files: []fileIn{{"e.txt", file(v8200, k257, "1")}, {"f.txt", file(v8300a, k256a, "2") + k256b + ": 3\nBenchmarkG 1 3 ns/op\n"}}},
+			{day: "20260101", files: []fileIn{{"g.txt", file(v8300b, "k", "a")}}},
+		}
+		c.qs = []string{"cmdline:" + v8193a, "cmdline:" + v8192, "cmdline>" + v8192 + " cmdline<" + v8193b,
+			"cmdline:" + v8300b + " name:F", k256a + ":1", k256b + ">0 " + k256a + "<3", k257 + ":1 " + k254 + ">0",
+			"cmdline>" + v8190 + " cmdline<" + v8200, "upload:20260101.3"}
+		c.ls = []listReq{{"cmdline:" + v8193b, 0}, {"cmdline>" + v8192, 0}, {k256a + ">0", 0}, {k256b + ":1", 2}}
+		emit(c.encode(next()))
+	}
 	r := hx.NewRand(19 + uint64(shard)*1000003)
 	g := &gen{r: r}
 	// SplitWords / addToQuery: exhaustive over a small alphabet, then random
